@@ -65,6 +65,9 @@ type Op struct {
 	VarsBetween map[string]any `json:"vars_between,omitempty"`
 	// Register: instead of a query, (re-)register the stub body under this
 	// function name, as an immediate function when RegisterImmediate is set
+	// ReexecOf: instead of building a query, call Exec again on the *Query that op number ReexecOf (1-based, earlier, same
+	// client) built; the rows are observed as this op's
+	ReexecOf          int    `json:"reexec_of,omitempty"`
 	Register          string `json:"register,omitempty"`
 	RegisterImmediate bool   `json:"register_immediate,omitempty"`
 }
@@ -72,6 +75,8 @@ type Op struct {
 type Client struct {
 	Name string `json:"name"`
 	Ops  []Op   `json:"ops"`
+	// BuildFirst: the client calls New for all its queries before it calls Exec on the first one
+	BuildFirst bool `json:"build_first,omitempty"`
 }
 
 type Case struct {
